@@ -266,16 +266,6 @@ def Event.isBad (c : Child W α) : Event W α → Prop
   | .norm e => c.isFinite e = false
   | _ => False
 
-private theorem split_before_tail {β : Type} (pre t a b : List β) (x : β) (hx : x ∉ t)
-    (h : pre ++ t = a ++ x :: b) : ∃ b₁, b = b₁ ++ t := by
-  rcases List.append_eq_append_iff.mp h with ⟨a', rfl, h2⟩ | ⟨c', rfl, h2⟩
-  · exact absurd (by rw [h2]; simp) hx
-  · cases c' with
-    | nil => simp at h2; exact absurd (by rw [← h2]; simp) hx
-    | cons y c'' =>
-      simp only [List.cons_append, List.cons.injEq] at h2
-      exact ⟨c'', h2.2⟩
-
 /-- **a failed or non-finite residual evaluation is never followed by `true` without a later
 successful one**: in the trace of a successful `solveNonLinearSystem`, after every failed
 `computeResidual` and every non-finite norm there is a later `computeResidual` that succeeded, on the
